@@ -44,12 +44,35 @@ def gen_op(rng):
                                    rng.choice(["ok"] * 7 + ["bad"]), " ".join(sh))
 
 
+def cfg_ops(rng, quick):
+    """the operator's lists arrive through a config FILE and the real loader: a few list pairs (certificate list
+    stricter than, equal to, weaker than, disjoint from the web-UI list), credentials that need no password backend"""
+    pairs = [("U2F,TOTP", "password"), ("U2F", "U2F"), ("password", "U2F"), ("-", "password"), ("IPCertificate", "password"),
+             ("TOTP,Okta2FA", "password,TOTP")]
+    if not quick:
+        pairs += [(",".join(g.allowed(rng)) or "-", ",".join(g.allowed(rng)) or "-") for _ in range(30)]
+    out = []
+    for allowed, webui in pairs:
+        fixed = ["auth:ok:ok:ok:past:future:2:alice", "auth:ok:ok:ok:past:future:66:alice", "auth:ok:ok:ok:past:future:10:alice",
+                 "auth:ok:ok:ok:past:future:1026:alice", "auth:ok:ok:ok:past:future:130:alice"]
+        for ck in fixed:
+            out.append("cfgcg %s %s alice %s ok POST none 1 none %s none 1" % (allowed, webui, rng.choice(["ssh", "x509"]), ck))
+        out.append("cfgcg %s %s role1 x509 ok POST none 1 ipin:2 none none 1" % (allowed, webui))
+        out.append("cfgcg %s %s alice x509 ok POST none 1 km:2 none none 1" % (allowed, webui))
+        for _ in range(12 if quick else 40):
+            f = gen_op(rng).split()
+            f[0], f[1], f[2] = "cfgcg", allowed, webui
+            f[11], f[12] = "none", "1"        # no basic-auth (the generated config has no password backend), limiter open
+            out.append(" ".join(f))
+    return out
+
+
 def run(ctx):
     facts = c.regen(ctx)
     c.prove(ctx)
     rng = ctx.rng
     n = 3000 if ctx.quick() else 60000
-    ops = list(CORPUS) + [gen_op(rng) for _ in range(n)]
+    ops = list(CORPUS) + [gen_op(rng) for _ in range(n)] + cfg_ops(rng, ctx.quick())
     impl, log, rc = c.run_harness(ctx, "cmd/keymasterd", "C01", ops, timeout=1500)
     if rc != 0 or len(impl) != len(ops):
         ctx.broken.append("harness TestVerifC01 did not complete (exit %d, %d/%d lines)" % (rc, len(impl), len(ops)))
@@ -84,6 +107,8 @@ def run(ctx):
         "evaluations": len(ops), "distinct_nontrivial": len(issued),
         "rule": "requests to the real certGenHandler: operator list (any subset of the 9 method names) x sealed x target user x cert type x key validity x request shape (method, origin, host, TLS chain kind/shape/deny, cookie claims incl. arbitrary level bit sets, basic-auth, limiter); non-trivial = distinct ops for which a certificate was actually issued",
         "outcome_histogram": dict(hist), "clauses": facts.get("c01"),
+        "config_file_loaded_ops": sum(1 for o in ops if o.startswith("cfgcg")),
+        "config_file_loaded_issued": sum(1 for o in issued if o.startswith("cfgcg")),
         "samples": [{"op": o, "impl": a, "model": b} for o, a, b in list(zip(ops, impl, model))[:5]],
     })
     return c.finish(ctx)
